@@ -250,6 +250,12 @@ def job_datetime_like_decimal(ctx, basic, kind, mark=",", digs="5"):
 
 DECIMALS = ["PT5,5M", "PT5.5M", "PT0,5S", "PT1H30,25M", "P1DT2,75H", "PT0.000001S", "PT123456,789S", "-PT2,5H", "P1Y2M3DT4H5M6,7S",
             "PT9999999,5S", "PT0,25H", "P3DT0,125S"]
+# a decimal fraction on a higher-order unit next to lower-order integer units (non-dyadic fractions: their float
+# images must survive str() exactly, whatever carries the writer applies)
+DECIMALS += ["%sPT%sH%dM" % (sg, h, m) for h in ("0,97", "0,17", "8,61", "0,36", "1,5", "23,99", "0,01")
+             for m in (8, 27, 44, 17, 59) for sg in ("", "-")]
+DECIMALS += ["%sPT%sM%dS" % (sg, mi, se) for mi in ("6,49", "0,25", "2,1", "59,99") for se in (35, 1, 59) for sg in ("", "-")]
+DECIMALS += ["P1Y2MT0,36H27M", "P3DT0,97H44M5S", "PT0,17H8M0,5S"]
 
 
 def job_decimals(ctx):
@@ -272,7 +278,7 @@ def job_decimals(ctx):
         else:
             res["candidates"].append({"label": "decimal duration round trip", "how": "concrete", "case": {"check": "decimal", "text": txt}})
     res["nontrivial_paths"] = len(DECIMALS)
-    res["scenarios"]["decimal supplement"] = {"texts": DECIMALS}
+    res["scenarios"]["decimal supplement"] = {"texts": len(DECIMALS), "first": DECIMALS[:12]}
     res["notes"].append("concrete supplement, not a solver verdict")
     return res
 
@@ -404,7 +410,7 @@ INFO = {
                    "leading '-', comma/point decimals with concrete fraction digits) decode to the spelled components; the "
                    "date-time-like spellings (extended and basic, all digits symbolic) equal the designator spelling.",
     "bounds": {"quick": {"components": "0..999999 (1-2 units), 0..9999 (3 units), 0..99 (4-6 units); selected unit subsets",
-                         "designator strings": "1-3 symbolic digits per component", "decimals": "fraction digits concrete: ,5 .25 ,000001 .0; plus 12 concrete decimal texts"},
+                         "designator strings": "1-3 symbolic digits per component", "decimals": "fraction digits concrete: ,5 .25 ,000001 .0; plus 109 concrete decimal texts (incl. a non-dyadic fraction on a higher-order unit next to lower-order integer units)"},
                "thorough": {"components": "every subset of units; 0..999 999 999 (1-2 units), 0..999 999 (3), 0..9999 (4), 0..999 (5-6)",
                             "designator strings": "every subset of units; 1-6 symbolic digits (single unit), 1-3 (2-3 units), 2 (more)"}},
     "outside": ["decimal component values with symbolic fraction digits (floating point)", "mixed-sign durations (excluded by the property)",
